@@ -10,6 +10,10 @@ NOT_MINE = {"signature", "timestamp_monotone", "timestamp_clock", "link_id"}
 def run(ctx):
     ctx.build_mvh()
     ctx.mc("MC_Writer", "MC_Writer.cfg", timeout=1800)
+    # unbounded: counter = emitted mod 256 for histories of any length (inductive invariant, Apalache)
+    import vf
+    if not ctx.apalache("SeqInt", "SeqInt_fixed.cfg"):
+        raise vf.Inconclusive("Apalache did not discharge the inductive invariant of SeqInt (model of the current code)")
     defs = ctx.path("defs.json")
     ctx.run_mvh(["defs", "-out", defs])
     tr = ctx.path("c09.ndjson")
